@@ -400,17 +400,17 @@ def run_case(case):
             else:
                 driver.build_nodata(st.spec)
                 if origin in history.SERIAL:
+                    pre_cells = [c for a in cfg.get('pre', [])
+                                 for c in (st.range_members(a) if ':' in a else [a])]
+                    if any(exp_states[0].get(c, ('ok',))[0] == 'err' for c in pre_cells):
+                        # the reference cannot evaluate what would be evaluated before the
+                        # save (a library function that raises on these operands): the saved
+                        # model would hold a range pycel cannot calculate at load time - a
+                        # known limit (section 8), not an order question
+                        count('probe:run-skipped-reference-raises-before-the-save')
+                        return 'done'
                     for a in cfg.get('pre', []):
-                        try:
-                            driver.model.evaluate(a)
-                        except Exception:   # noqa
-                            # (a cell the reference cannot evaluate either - a library function
-                            # that raises on these operands - is simply not part of what is saved)
-                            involved = st.range_members(a) if ':' in a else [a]
-                            if all(exp_states[0].get(c, ('err',))[0] == 'ok' for c in involved
-                                   if c in st.all):
-                                raise
-                            count('probe:pre-evaluation-raised-as-in-the-reference')
+                        driver.model.evaluate(a)
                     op = {'op': 'restart', 'fmt': origin}
                     out = driver.restart_save(op)
                     if 'exc' in out:
